@@ -98,7 +98,11 @@ theorem readFrameHeader_spec (s : St) (hd : s.dead = false) (hl : s.lim < 0) (hb
     | none =>
       rw [hc2] at h2
       obtain ⟨e, s', he⟩ := h2
-      exact ⟨e, s', by rw [he]⟩
+      rw [he]
+      dsimp only
+      split
+      · exact ⟨_, _, rfl⟩
+      · exact ⟨_, _, rfl⟩
     | some q =>
       obtain ⟨sz, m⟩ := q
       rw [hc2] at h2
